@@ -105,6 +105,30 @@ func (r *Run) mustFunc(pkg, name string) (f *ssaFunc) {
 	return fn
 }
 
+// filtered runs a rule on a scratch Run and keeps only the obligations whose key contains one of
+// the given substrings: a property can claim the slice of a large rule (reader/writer agreement of
+// the section structs, clone coverage of the note registries) without inheriting the rest.
+func filtered(rule func(*Run), substrs ...string) func(*Run) {
+	return func(r *Run) {
+		probe := newRun(r.P, r.Prop, r.Tier)
+		rule(probe)
+		n := 0
+		for _, k := range probe.order {
+			o := probe.obs[k]
+			for _, sub := range substrs {
+				if strings.Contains(o.Key, sub) {
+					r.add(o.Rule, strings.TrimPrefix(o.Key, o.Rule+":"), token.NoPos, o.Status, o.Detail, o.NonTrivial)
+					r.obs[o.Key].Pos = o.Pos
+					n++
+					break
+				}
+			}
+		}
+		r.Failures = append(r.Failures, probe.Failures...)
+		r.Min("filtered obligations ("+strings.Join(substrs, ",")+")", n, 1)
+	}
+}
+
 type PropSpec struct {
 	Title       string
 	Explanation string
